@@ -127,10 +127,13 @@ struct Sim
         break;
       }
     case 3: // chunked: head now, two chunks and the last chunk from the sent handler
-      response.add_header(http::header_field::id::TRANSFER_ENCODING, "Chunked");
-      ok = conn->send(std::move(response));
-      ac.chunks_left = 2; ac.last_due = true;
-      break;
+      {
+        response.add_header(http::header_field::id::TRANSFER_ENCODING, "Chunked");
+        bool valid = response.is_valid();
+        ok = conn->send(std::move(response));
+        if (valid) { ac.chunks_left = 2; ac.last_due = true; }
+        break;
+      }
     case 4: ok = conn->send_response(); break;
     default: break;
     }
